@@ -40,6 +40,17 @@ func newCache() *cache {
 	}
 }
 
+func (r *cache) removeNode(shardID uint64, replicaID uint64) {
+	key := raftio.NodeInfo{ShardID: shardID, ReplicaID: replicaID}
+	r.mu.Lock()
+	defer r.mu.Unlock()
+	delete(r.nodeInfo, key)
+	delete(r.ps, key)
+	delete(r.lastEntryBatch, key)
+	delete(r.maxIndex, key)
+	delete(r.snapshotIndex, key)
+}
+
 func (r *cache) setNodeInfo(shardID uint64, replicaID uint64) bool {
 	key := raftio.NodeInfo{ShardID: shardID, ReplicaID: replicaID}
 	r.mu.Lock()
